@@ -3,7 +3,7 @@
 # Runs in an isolated copy (scratch worktree of /repo HEAD + copy of /verif/sim pointing at it) so that
 # it can run in the background while /repo and /verif are being worked on. Writes /verif/SILENCE.md.
 set -u
-N="${1:-50}"; SCALE="${2:-0.15}"; TIER="${3:-quick}"
+N="${1:-50}"; SCALE="${2:-0.15}"; TIER="${3:-quick}"; DEST="${4:-/verif/SILENCE.md}"
 SX=$(mktemp -d /tmp/sx.XXXXXX)
 git -C /repo worktree add -q --detach $SX/repo HEAD
 rsync -a --exclude target /verif/sim/ $SX/sim/
@@ -30,5 +30,5 @@ for p in C01 C02 C03 C04 C05 C07 C08 C11 C19; do
   done
   echo "- $p: $N seeds, exit codes {$(echo $codes | tr ' ' '\n' | sort -u | paste -sd,)}, $runs simulated runs, $viol VIOLATION, $known KNOWN-FINDING, $herr harness errors" >> $OUT
 done
-cp $OUT /verif/SILENCE.md
+cp $OUT $DEST
 git -C /repo worktree remove --force $SX/repo; rm -rf $SX
